@@ -90,10 +90,12 @@ func c04Run(ctx *core.Ctx) {
 				}
 			}
 		}
-		for _, site := range []string{"Mail", "Rcpt"} {
+		for _, site := range []string{"Mail", "Rcpt", "Data"} {
 			for _, t2 := range []string{"data", "bdat"} {
 				for _, mode := range []srvMode{modeSMTP, modeLMTPRcpt, modeLMTP} {
-					emit(c04Case{Kind: "slowcb", Site: site, T2: t2, Mode: mode})
+					emit(c04Case{Kind: "slowcb", Site: site, T2: t2, Mode: mode, RT: true})
+					emit(c04Case{Kind: "slowcb", Site: site, T2: t2, Mode: mode, WT: true})
+					emit(c04Case{Kind: "slowcb", Site: site, T2: t2, Mode: mode, RT: true, WT: true})
 				}
 			}
 		}
@@ -132,8 +134,15 @@ func c04Exec(ctx *core.Ctx, c c04Case) {
 // peer's idle time: every command line is read under a deadline of its own, so the pipelined
 // DATA / BDAT and the message behind it are served normally.
 func c04SlowCallback(ctx *core.Ctx, c c04Case) {
-	ctx.Eval(fmt.Sprintf("slowcb|%s|%s|%s", c.Site, c.T2, c.Mode), true)
-	rig := newRig(c.Mode, func(s *smtp.Server) { s.ReadTimeout = time.Hour })
+	ctx.Eval(fmt.Sprintf("slowcb|%s|%s|%s|%v|%v", c.Site, c.T2, c.Mode, c.RT, c.WT), true)
+	rig := newRig(c.Mode, func(s *smtp.Server) {
+		if c.RT {
+			s.ReadTimeout = time.Hour // virtual clock
+		}
+		if c.WT {
+			s.WriteTimeout = time.Hour
+		}
+	})
 	gate := rec.NewGate()
 	defer gate.OpenAll()
 	rig.BE.H.Mail = func(int, string, *smtp.MailOptions) error {
@@ -148,10 +157,17 @@ func c04SlowCallback(ctx *core.Ctx, c c04Case) {
 		}
 		return nil
 	}
+	rig.BE.H.Data = func(sess int, r *rec.Reader, st smtp.StatusCollector) error {
+		r.ReadAll(64)
+		if c.Site == "Data" {
+			gate.Wait("slow") // the whole message is in; the verdict takes its time
+		}
+		return nil
+	}
 	p := rig.Dial()
 	var all []wire.Reply
 	fail := func(sig, msg string) {
-		ctx.Violate(sig, msg+fmt.Sprintf(" [slow callback=%s transfer=%s mode=%s]", c.Site, c.T2, c.Mode), c, witness(rig.Log, all))
+		ctx.Violate(sig, msg+fmt.Sprintf(" [slow callback=%s transfer=%s mode=%s ReadTimeout=%v WriteTimeout=%v]", c.Site, c.T2, c.Mode, c.RT, c.WT), c, witness(rig.Log, all))
 	}
 	p.SendStr(c.Mode.hello() + "\r\n")
 	rs, err := expect(p, 2)
@@ -173,15 +189,34 @@ func c04SlowCallback(ctx *core.Ctx, c c04Case) {
 		want = append(want, 250)
 	}
 	p.SendStr(burst)
+	bodySent := false
+	if c.Site == "Data" && c.T2 == "data" {
+		// the slow step is the verdict: the message itself goes out promptly after the 354
+		rs, err = expect(p, len(want))
+		all = append(all, rs...)
+		if err != nil {
+			p.Close()
+			rig.Finish()
+			fail("C04:stale-deadline-after-slow-callback", fmt.Sprintf("the pipelined envelope and DATA were answered %s (%v), expected %v", codes(rs), err, want))
+			return
+		}
+		p.SendStr("body line\r\n.\r\n")
+		bodySent = true
+		want = []int{250}
+	}
 	if !gate.WaitParked("slow") {
 		p.Close()
 		rig.Finish()
 		ctx.Inconclusive("C04 slowcb: callback not reached")
 		return
 	}
-	// more than ReadTimeout passes while the backend is busy
+	// more than ReadTimeout / WriteTimeout passes while the backend is busy
 	if p.SrvEnd.FireReadDeadline() {
 		rig.Log.Act("read deadline expired while the backend was busy in " + c.Site)
+	}
+	if p.SrvEnd.FireWriteDeadline() {
+		rig.Log.Act("write deadline expired while the backend was busy in " + c.Site)
+		ctx.Add("write_deadlines_expired_during_a_slow_callback", 1)
 	}
 	gate.Open("slow")
 	rs, err = expect(p, len(want))
@@ -189,10 +224,10 @@ func c04SlowCallback(ctx *core.Ctx, c c04Case) {
 	if err != nil || codes(rs) != strings.Trim(strings.ReplaceAll(fmt.Sprint(want), " ", ","), "[]") {
 		p.Close()
 		rig.Finish()
-		fail("C04:stale-deadline-after-slow-callback", fmt.Sprintf("the commands pipelined behind the slow %s callback were answered %s (%v), expected %v", c.Site, codes(rs), err, want))
+		fail("C04:stale-deadline-after-slow-callback", fmt.Sprintf("the replies that follow the slow %s callback were %s (%v), expected %v: the time the backend took is neither the peer's idle time nor the time a reply took to write", c.Site, codes(rs), err, want))
 		return
 	}
-	if c.T2 == "data" {
+	if c.T2 == "data" && !bodySent {
 		p.SendStr("body line\r\n.\r\n")
 		r, err := p.ReadReply()
 		all = append(all, r)
@@ -214,7 +249,7 @@ func c04SlowCallback(ctx *core.Ctx, c c04Case) {
 	}
 	ctx.Add("replies_parsed", int64(len(all)))
 	if ctx.WantSample("slowcb/" + c.Site) {
-		ctx.Sample("slowcb/"+c.Site, map[string]any{"slow_callback": c.Site, "transfer": c.T2, "mode": c.Mode, "replies": codes(all)})
+		ctx.Sample("slowcb/"+c.Site, map[string]any{"slow_callback": c.Site, "transfer": c.T2, "mode": c.Mode, "read_timeout": c.RT, "write_timeout": c.WT, "replies": codes(all)})
 	}
 }
 
